@@ -64,7 +64,9 @@ structure MState where
   consumed : Key → List Line := fun _ => []     -- everything `consumeTrace` has returned so far
   ncu : Nat := 1000                             -- `num_cached_uses`
   fault : Bool := false                         -- an `assert` of the class fired
-  restarted : Bool := false                     -- ghost: a started trace was started / declared again
+  restarted : Bool := false                     -- ghost: irregular use of the API — a trace that already has
+                                                -- lines is started or declared again, or a trace is declared
+                                                -- after its rank was registered / matched
 
 /-- the calls the class receives -/
 inductive Ev
@@ -90,6 +92,14 @@ def levelOf (st : MState) (r : String) : Option Nat :=
 def headerOf (names : List String) : Line :=
   .hdr (names.map (· ++ "_pos") ++ names ++ ["fiber_pos"])
 
+/-- what the file of `k` holds once everything buffered has been written -/
+def content (st : MState) (k : Key) : List Line :=
+  (st.disk k).getD [] ++ (((st.slots k).bind (·.file)).getD [])
+
+/-- everything the consumable trace of `k` has delivered or still holds -/
+def memAll (st : MState) (k : Key) : List Line :=
+  st.consumed k ++ (((st.slots k).bind (·.mem)).getD [])
+
 /-- `_writeTrace`: append the buffer to the file, empty the buffer -/
 def writeTrace (st : MState) (k : Key) : MState :=
   match st.slots k with
@@ -109,7 +119,7 @@ def startTrace (st : MState) (k : Key) : MState :=
     let s' : Slot := ⟨s.file.map (· ++ [h]), s.mem.map (· ++ [h]), true⟩
     { st with disk := if s.file.isSome then upd st.disk k (some []) else st.disk,
               slots := upd st.slots k (some s'),
-              restarted := st.restarted || s.started }
+              restarted := st.restarted || !(content st k).isEmpty || !(memAll st k).isEmpty }
   | _, _ => { st with fault := true }
 
 def startRank (st : MState) (r : String) : MState :=
@@ -164,10 +174,10 @@ def endIter (st : MState) (r : String) : MState :=
 def declTrace (st : MState) (r ty : String) (consumable : Bool) : MState :=
   let k : Key := (r, ty)
   let s := (st.slots k).getD {}
-  let again := if consumable then s.mem.isSome else s.file.isSome
   { st with declared := if (st.slots k).isSome then st.declared else st.declared ++ [k],
             slots := upd st.slots k (some (if consumable then { s with mem := some [] } else { s with file := some [] })),
-            restarted := st.restarted || again || s.started }
+            restarted := st.restarted || !(content st k).isEmpty || !(memAll st k).isEmpty ||
+                           (levelOf st r).isSome }
 
 /-- `consumeTrace` -/
 def consumeTrace (st : MState) (k : Key) : MState :=
@@ -204,14 +214,6 @@ def run (st : MState) (evs : List Ev) : MState := evs.foldl step st
 
 /-- `beginCollect` followed by `setNumCachedUses n` -/
 def init (n : Nat) : MState := { ncu := n }
-
-/-- what the file of `k` holds once everything buffered has been written -/
-def content (st : MState) (k : Key) : List Line :=
-  (st.disk k).getD [] ++ (((st.slots k).bind (·.file)).getD [])
-
-/-- everything the consumable trace of `k` has delivered or still holds -/
-def memAll (st : MState) (k : Key) : List Line :=
-  st.consumed k ++ (((st.slots k).bind (·.mem)).getD [])
 
 /-! ## 2. Loop nests -/
 
